@@ -9,6 +9,11 @@
 (*  [k |-> "a", p, clipN, e |-> <<elem ...>>]            PACTAct           *)
 (*  [k |-> "b", e |-> <<elem ...>>]                      QuantizerBias     *)
 (*  [k |-> "d", same, s1, e |-> <<elem ...>>]            DummyQuantizer    *)
+(*  [k |-> "life", q, precs, init, ev |-> <<event ...>>] one quantiser      *)
+(*        OBJECT driven through a history (see QuantLife): events          *)
+(*        [a |-> "SetMode"|"SetGrad"|"SetDeq"|"SetPrec", v] and            *)
+(*        [a |-> "Call", rel, obs |-> [mode, grad, deq, p (read back from  *)
+(*         the object), hist, hs, tr |-> one of the records above]]        *)
 (*                                                                         *)
 (* Elements are sorted by the exact value of the input (bias: by scale id, *)
 (* then input).  Integer fields (logged as observed):                      *)
@@ -38,7 +43,7 @@
 (* "isclose" transcription), else "drift:..." when only a prediction       *)
 (* (level = model level) fails, else "ok".                                 *)
 (***************************************************************************)
-EXTENDS QuantArith, Sequences, FiniteSets, Json, IOUtils, TLC
+EXTENDS QuantArith, QuantLife, FiniteSets, Json, IOUtils, TLC
 
 Traces == JsonDeserialize(IOEnv.TRACE_FILE)
 
@@ -84,21 +89,25 @@ WClauses(p, c) ==
 WDrift(p, c) ==
     LET e == c.e IN FirstBad(e, LAMBDA i : e[i].cmp => e[i].lev = WQ("ref", p, e[i].n))
 
+\* Verdicts are pairs <<class, message>>, class in {"ok", "viol", "known", "drift"}; Flat makes the string.
+Ok == <<"ok", "ok">>
+Flat(v) == IF v[1] = "ok" THEN "ok" ELSE IF v[1] = "viol" THEN v[2] ELSE v[1] \o ":" \o v[2]
+
 RECURSIVE WWalk(_, _, _)
 WWalk(t, j, drift) ==
     IF j > Len(t.ch) THEN drift
     ELSE LET c == t.ch[j]
              f == FirstFail(WClauses(t.p, c), 1)
          IN  IF f[2] # 0
-             THEN Msg("C13.weight channel " \o ToString(j) \o " p=" \o ToString(t.p) \o " ", f, c.e)
+             THEN <<"viol", Msg("C13.weight channel " \o ToString(j) \o " p=" \o ToString(t.p) \o " ", f, c.e)>>
              ELSE LET d == WDrift(t.p, c) IN
                   WWalk(t, j + 1,
-                        IF drift = "ok" /\ d # 0
-                        THEN "drift:C13.weight.level channel " \o ToString(j) \o " p=" \o ToString(t.p)
-                             \o " model " \o ToString(WQ("ref", t.p, c.e[d].n)) \o " observed " \o ToString(c.e[d])
+                        IF drift = Ok /\ d # 0
+                        THEN <<"drift", "C13.weight.level channel " \o ToString(j) \o " p=" \o ToString(t.p)
+                             \o " model " \o ToString(WQ("ref", t.p, c.e[d].n)) \o " observed " \o ToString(c.e[d])>>
                         ELSE drift)
 
-CheckW(t) == WWalk(t, 1, "ok")
+CheckW(t) == WWalk(t, 1, Ok)
 
 (***************************************************************************)
 (* activations                                                             *)
@@ -135,12 +144,12 @@ AClauses(t) ==
 
 CheckA(t) ==
     LET f == FirstFail(AClauses(t), 1) IN
-    IF f[2] # 0 THEN Msg("C13.act p=" \o ToString(t.p) \o " ", f, t.e)
+    IF f[2] # 0 THEN <<"viol", Msg("C13.act p=" \o ToString(t.p) \o " ", f, t.e)>>
     ELSE LET e == t.e
              d == FirstBad(e, LAMBDA i : e[i].cmp => e[i].lev = AQ("ref", t.p, e[i].n, t.clipN, 8 * L(t.p)))
-         IN  IF d = 0 THEN "ok"
-             ELSE "drift:C13.act.level p=" \o ToString(t.p) \o " model "
-                  \o ToString(AQ("ref", t.p, e[d].n, t.clipN, 8 * L(t.p))) \o " observed " \o ToString(e[d])
+         IN  IF d = 0 THEN Ok
+             ELSE <<"drift", "C13.act.level p=" \o ToString(t.p) \o " model "
+                  \o ToString(AQ("ref", t.p, e[d].n, t.clipN, 8 * L(t.p))) \o " observed " \o ToString(e[d])>>
 
 (***************************************************************************)
 (* bias                                                                    *)
@@ -170,33 +179,135 @@ CheckB(t) ==
     LET e == t.e
         f == FirstFail(BClauses(t), 1)
     IN
-    IF f[2] # 0 THEN Msg("C13.bias ", f, e)
+    IF f[2] # 0 THEN <<"viol", Msg("C13.bias ", f, e)>>
     ELSE LET k == FirstBad(e, LAMBDA i : BErrOk(e[i])) IN
          IF k # 0
-         THEN "known:F11:a bias of one step or more is returned as 0 because the scale 0 < s_a*s_w <= 1e-8 is treated as zero (isclose test); sorted element "
-              \o ToString(k) \o " of " \o ToString(Len(e)) \o ", grid nb=" \o ToString(e[k].nb) \o " ns=" \o ToString(e[k].ns)
+         THEN <<"known", "F11:a bias of one step or more is returned as 0 because the scale 0 < s_a*s_w <= 1e-8 is treated as zero (isclose test); sorted element "
+              \o ToString(k) \o " of " \o ToString(Len(e)) \o ", grid nb=" \o ToString(e[k].nb) \o " ns=" \o ToString(e[k].ns)>>
          ELSE LET d == FirstBad(e, LAMBDA i : (e[i].cmp /\ ~e[i].tiny) => e[i].lev = BQ("ref", e[i].nb, e[i].ns, 0))
-              IN  IF d = 0 THEN "ok"
-                  ELSE "drift:C13.bias.level model " \o ToString(BQ("ref", e[d].nb, e[d].ns, 0))
-                       \o " observed " \o ToString(e[d])
+              IN  IF d = 0 THEN Ok
+                  ELSE <<"drift", "C13.bias.level model " \o ToString(BQ("ref", e[d].nb, e[d].ns, 0))
+                       \o " observed " \o ToString(e[d])>>
 
 (***************************************************************************)
 (* dummy                                                                   *)
 (***************************************************************************)
 CheckD(t) ==
-    IF ~t.same THEN "C13.dummy identity: output is not the input"
-    ELSE IF ~t.s1 THEN "C13.dummy scale: reported scale is not 1"
+    IF ~t.same THEN <<"viol", "C13.dummy identity: output is not the input">>
+    ELSE IF ~t.s1 THEN <<"viol", "C13.dummy scale: reported scale is not 1">>
     ELSE LET e == t.e
              d == FirstBad(e, LAMBDA i : e[i].ii /\ e[i].lev = DQ(e[i].n))
-         IN  IF d = 0 THEN "ok"
-             ELSE "C13.dummy identity: element " \o ToString(e[d])
+         IN  IF d = 0 THEN Ok
+             ELSE <<"viol", "C13.dummy identity: element " \o ToString(e[d])>>
+
+(***************************************************************************)
+(* life cycle of one quantiser object (QuantLife).  The abstract state is  *)
+(* advanced with the operators of QuantLife; at every Call                 *)
+(*  (i)   the configuration read back from the real object must be the     *)
+(*        model's (the setters took effect),                               *)
+(*  (ii)  the returned tensor must satisfy ALL per-call clauses above for   *)
+(*        the CURRENT precision and dequantize flag of the model state     *)
+(*        (the harness reduced the single returned tensor under that flag: *)
+(*        integer mode -> it is the integer output; fake mode -> it must   *)
+(*        be integer x reported scale),                                    *)
+(*  (iii) it must be bit-identical to what a freshly constructed           *)
+(*        quantiser of the same configuration returns on the same data     *)
+(*        (hist), and so must the reported scale (hs).                     *)
+(***************************************************************************)
+CheckSub(q, tr, p) ==
+    IF q = "w" THEN CheckW([tr EXCEPT !.p = p])
+    ELSE IF q = "a" THEN CheckA([tr EXCEPT !.p = p])
+    ELSE CheckB(tr)
+
+StepDesc(i, s, rel) ==
+    "step " \o ToString(i) \o " Call(" \o rel \o ") in " \o ToString([mode |-> s.mode, grad |-> s.grad, deq |-> s.deq, pi |-> s.pi])
+    \o " previous call " \o (IF s.last.valid THEN ToString([mode |-> s.last.mode, grad |-> s.last.grad, deq |-> s.last.deq, pi |-> s.last.pi]) ELSE "none")
+
+(***************************************************************************)
+(* The abstract state before event i is written down WITHOUT recursion     *)
+(* (TLC evaluates recursive walks on the Java stack; histories are long):  *)
+(* every component is a register whose value is the argument of the last   *)
+(* Set event before i.  That this candidate sequence of states really is a *)
+(* behaviour of QuantLife is then checked step by step with the action     *)
+(* operators of QuantLife (StepOk).                                        *)
+(***************************************************************************)
+MaxOf(S) == CHOOSE x \in S : \A y \in S : y <= x
+
+LastIdx(ev, i, a) ==
+    LET S == {j \in 1..(i - 1) : ev[j].a = a} IN IF S = {} THEN 0 ELSE MaxOf(S)
+
+RegAt(t, i, a, dflt) ==
+    LET j == LastIdx(t.ev, i, a) IN IF j = 0 THEN dflt ELSE t.ev[j].v
+
+RegsAt(t, i) ==
+    [mode |-> RegAt(t, i, "SetMode", "train"), grad |-> RegAt(t, i, "SetGrad", TRUE),
+     deq  |-> RegAt(t, i, "SetDeq", t.init.deq), pi |-> RegAt(t, i, "SetPrec", t.init.pi)]
+
+\* state before event i, i in 1..Len(ev)+1
+StateAt(t, i) ==
+    LET r == RegsAt(t, i)
+        c == LastIdx(t.ev, i, "Call")
+    IN  [mode |-> r.mode, grad |-> r.grad, deq |-> r.deq, pi |-> r.pi, has |-> c # 0,
+         last |-> IF c = 0 THEN NoLast ELSE CfgOf(RegsAt(t, c))]
+
+StepOk(t, i) ==
+    LET e  == t.ev[i]
+        s  == StateAt(t, i)
+        s2 == StateAt(t, i + 1)
+        np == Len(t.precs)
+    IN  IF e.a = "SetMode" THEN CanSetMode(s, e.v) /\ s2 = DoSetMode(s, e.v)
+        ELSE IF e.a = "SetGrad" THEN CanSetGrad(s, e.v) /\ s2 = DoSetGrad(s, e.v)
+        ELSE IF e.a = "SetDeq" THEN CanSetDeq(s, e.v) /\ s2 = DoSetDeq(s, e.v)
+        ELSE IF e.a = "SetPrec" THEN CanSetPrec(s, e.v, np) /\ s2 = DoSetPrec(s, e.v)
+        ELSE IF e.a = "Call" THEN CanCall(s, e.rel) /\ s2 = DoCall(s, e.rel)
+        ELSE FALSE
+
+\* verdict of the Call at event i
+CallV(t, i) ==
+    LET e == t.ev[i]
+        s == StateAt(t, i)
+        o == e.obs
+        p == t.precs[s.pi]
+    IN
+    IF <<o.mode, o.grad, o.deq, o.p>> # <<s.mode, s.grad, s.deq, p>>
+    THEN <<"viol", "C13.life config: the object reports " \o ToString(<<o.mode, o.grad, o.deq, o.p>>)
+                   \o " but was set to " \o ToString(<<s.mode, s.grad, s.deq, p>>) \o " at " \o StepDesc(i, s, e.rel)>>
+    ELSE LET sub == CheckSub(t.q, o.tr, p) IN
+         IF sub[1] = "viol"
+         THEN <<"viol", "C13.life " \o StepDesc(i, s, e.rel) \o " :: " \o sub[2]>>
+         ELSE IF sub[1] = "known" THEN sub
+         ELSE IF ~o.hist
+         THEN <<"viol", "C13.life history: the result differs from what a freshly constructed quantiser of the same configuration returns on the same data, "
+                        \o StepDesc(i, s, e.rel)>>
+         ELSE IF ~o.hs
+         THEN <<"viol", "C13.life history: the reported scale differs from that of a freshly constructed quantiser, "
+                        \o StepDesc(i, s, e.rel)>>
+         ELSE sub
+
+CheckLife(t) ==
+    LET ev  == t.ev
+        s0  == StateAt(t, 1)
+    IN
+    IF s0 \notin LifeInit(Len(t.precs)) THEN <<"viol", "trace.life: not an initial state">>
+    ELSE LET nostep == {i \in DOMAIN ev : ~StepOk(t, i)} IN
+         IF nostep # {} THEN <<"viol", "trace.life: event " \o ToString(MinOf(nostep)) \o " is not a step of QuantLife: "
+                                        \o ToString([a |-> ev[MinOf(nostep)].a])>>
+         ELSE LET cv    == [i \in DOMAIN ev |-> IF ev[i].a = "Call" THEN CallV(t, i) ELSE Ok]
+                  viol  == {i \in DOMAIN ev : cv[i][1] = "viol"}
+                  known == {i \in DOMAIN ev : cv[i][1] = "known"}
+                  drift == {i \in DOMAIN ev : cv[i][1] = "drift"}
+              IN  IF viol # {} THEN cv[MinOf(viol)]
+                  ELSE IF known # {} THEN cv[MinOf(known)]
+                  ELSE IF drift # {} THEN cv[MinOf(drift)]
+                  ELSE Ok
 
 Check(t) ==
     IF ~Has(t, "k") THEN "trace: no kind"
-    ELSE IF t.k = "w" THEN CheckW(t)
-    ELSE IF t.k = "a" THEN CheckA(t)
-    ELSE IF t.k = "b" THEN CheckB(t)
-    ELSE IF t.k = "d" THEN CheckD(t)
+    ELSE IF t.k = "w" THEN Flat(CheckW(t))
+    ELSE IF t.k = "a" THEN Flat(CheckA(t))
+    ELSE IF t.k = "b" THEN Flat(CheckB(t))
+    ELSE IF t.k = "d" THEN Flat(CheckD(t))
+    ELSE IF t.k = "life" THEN Flat(CheckLife(t))
     ELSE "trace: unknown kind"
 
 Init == tid \in 1..Len(Traces) /\ verdict = Check(Traces[tid])
